@@ -2,6 +2,7 @@ mod cmd_genfun;
 mod consts;
 mod gen_fun;
 mod gen_fun_ast;
+mod gen_fun_check;
 mod gen_fun_eval;
 mod rec;
 mod rng;
